@@ -1,0 +1,25 @@
+//go:build verif
+
+package clightning
+
+import (
+	"github.com/elementsproject/glightning/gbitcoin"
+	"github.com/elementsproject/glightning/glightning"
+	"github.com/elementsproject/peerswap/onchain"
+)
+
+// This file is compiled only with the "verif" build tag.
+
+// VerifNewWalletClient returns a client that carries exactly what the
+// swap.Wallet methods of clightning_wallet.go use (the lightningd and bitcoind
+// rpc clients, the onchain helper and the node version), so that an external
+// harness can run them against protocol-level fakes.
+func VerifNewWalletClient(gl *glightning.Lightning, gb *gbitcoin.Bitcoin, chain *onchain.BitcoinOnChain, clnVersion string) *ClightningClient {
+	return &ClightningClient{
+		version:        clnVersion,
+		glightning:     gl,
+		gbitcoin:       gb,
+		bitcoinChain:   chain,
+		bitcoinNetwork: chain.GetChain(),
+	}
+}
